@@ -1,5 +1,6 @@
 """C11 -- I/O errors and child failures are never reported as success."""
 import os
+import re
 import resource
 import signal
 import sys
@@ -47,6 +48,8 @@ def faulted_run(t, bindir, hx, fault=None, timeout=20):
         env["VFAULT_LOG"] = logp
         if fault:
             env.update({"VFAULT_OP": fault[0], "VFAULT_FD": str(fault[1]), "VFAULT_K": str(fault[2]), "VFAULT_ERRNO": str(fault[3])})
+            if len(fault) > 4:
+                env["VFAULT_STICKY"] = "1"
         rc, out, err = tr.run(t.argv(bindir, w, hx), t.stdin, timeout=timeout, env=env, cwd=w)
         return rc, collect(t, w, out), err, parse_log(logp)
 
@@ -55,9 +58,9 @@ def replay_of(t, bindir, hx, fault=None, extra=None):
     r = {"tool": t.label, "argv": t.argv("$BIN", "$W", "$HX"), "stdin_hex": hexs(t.stdin),
          "files_hex": {k: hexs(v) for k, v in t.files.items()}}
     if fault:
-        r["fault"] = {"op": fault[0], "fd": fault[1], "k": fault[2], "errno": fault[3]}
-        r["how"] = ("cd $W && VFAULT_OP=%s VFAULT_FD=%s VFAULT_K=%s VFAULT_ERRNO=%s LD_PRELOAD=$HX/libvfault.so %s < stdin ; echo $?"
-                    % (fault[0], fault[1], fault[2], fault[3], " ".join(t.argv("$BIN", "$W", "$HX"))))
+        r["fault"] = {"op": fault[0], "fd": fault[1], "k": fault[2], "errno": fault[3], "sticky": len(fault) > 4}
+        r["how"] = ("cd $W && VFAULT_OP=%s VFAULT_FD=%s VFAULT_K=%s VFAULT_ERRNO=%s %sLD_PRELOAD=$HX/libvfault.so %s < stdin ; echo $?"
+                    % (fault[0], fault[1], fault[2], fault[3], "VFAULT_STICKY=1 " if len(fault) > 4 else "", " ".join(t.argv("$BIN", "$W", "$HX"))))
     if extra:
         r.update(extra)
     return r
@@ -66,7 +69,7 @@ def replay_of(t, bindir, hx, fault=None, extra=None):
 # ---------------------------------------------------------------------------
 # Phase A: the k-th read/write/fsync/close on any data descriptor fails
 
-def phase_faults(c, bindir, hx, model_cases):
+def phase_faults(c, bindir, hx, model_cases, shard_cases):
     tools = tr.catalogue()
     errs = list(ERRNOS.items())
     jobs = []
@@ -86,6 +89,10 @@ def phase_faults(c, bindir, hx, model_cases):
                     chosen = [errs[(k + len(op)) % 3]] if k <= n else [errs[0]]
                 for en, eno in chosen:
                     jobs.append((t, (op, "any", k, eno), "fatal"))
+            # a failure that persists (disk stays full, pipe stays broken): every call from the k-th on fails
+            if op == "write":
+                for k in range(1, n + 1):
+                    jobs.append((t, (op, "any", k, 28, "sticky"), "fatal"))
             # benign controls: EINTR is retried by read/write loops; fsync EINVAL is ignored by design
             if op in ("read", "write") and n and t.kind != "iostream":
                 jobs.append((t, (op, "any", 1 + (c.rng.randrange(n)), EINTR), "benign"))
@@ -99,7 +106,7 @@ def phase_faults(c, bindir, hx, model_cases):
     with ThreadPoolExecutor(WORKERS) as ex:
         results = list(ex.map(work, jobs))
     for (t, fault, kind), (rc, outs, err, ev) in results:
-        op, fd, k, eno = fault
+        op, fd, k, eno = fault[:4]
         hit = [e for e in ev if e[0] == op and e[3] == -1 and e[4] == eno]
         base_outs, base_ev = base[t.label]
         bucket = "fault/%s/%s/%s" % (t.kind, op, "hit" if hit else "not-reached") if kind == "fatal" else "control/%s/%s" % (t.kind, op)
@@ -120,8 +127,72 @@ def phase_faults(c, bindir, hx, model_cases):
             c.broken.append("control: %s exits %s under benign fault %s (EINTR retry / ignored fsync errno): %s" % (t.label, rc, fault, err[-200:]))
         if kind == "fatal" and not hit and rc != 0:
             c.broken.append("control: %s exits %s although fault %s was never delivered: %s" % (t.label, rc, fault, err[-200:]))
+        if len(fault) > 4:
+            continue
         model_cases.append((t, fault, rc, ev, base_ev))
+        if t.label == "shard":
+            shard_cases.append((t, fault, rc, ev, base_ev, base_outs))
     return base
+
+
+# ---------------------------------------------------------------------------
+# Phase A2: stdout is a REGULAR FILE whose fsync fails (a write-back error surfacing at fsync), per descriptor:
+# every fsync of fd 1 in turn, and "every fsync of fd 1" -- whatever was synced before on other descriptors
+# (the wrappers first flush the pipe to their child: fsync -> EINVAL, ignored)
+
+def phase_file_stdout(c, bindir, hx):
+    jobs = []
+    # util::FileStream syncs at every flush (FileWriter::flush); the iostream tools never fsync, so an error that the
+    # OS reports only at fsync is invisible to them by design and not part of this phase
+    tools = [t for t in tr.catalogue() if t.kind != "iostream"]
+
+    def run_one(t, fault_env):
+        with tr.Scratch(SCRATCH, t) as w:
+            env = dict(os.environ)
+            env["LD_PRELOAD"] = os.path.join(hx, "libvfault.so")
+            logp = os.path.join(w, "vfault.log")
+            env["VFAULT_LOG"] = logp
+            env.update(fault_env)
+            outp = os.path.join(w, "stdout.file")
+            with open(outp, "wb") as f:
+                rc, _, err = tr.run(t.argv(bindir, w, hx), t.stdin, timeout=20, env=env, cwd=w, stdout=f)
+            return rc, open(outp, "rb").read(), err, parse_log(logp)
+
+    clean = {}
+    for t in tools:
+        rc, out, err, ev = run_one(t, {})
+        if rc != 0:
+            c.broken.append("clean run of %s with a regular file on stdout exits %s" % (t.label, rc))
+            continue
+        if not out:
+            continue                      # nothing is written to stdout (shard, dedupe -p): nothing to lose
+        n1 = len([e for e in ev if e[0] == "fsync" and e[1] == 1])
+        clean[t.label] = (out, n1)
+        for eno in (5, 28):
+            jobs.append((t, {"VFAULT_OP": "fsync", "VFAULT_FD": "1", "VFAULT_K": "1", "VFAULT_STICKY": "1", "VFAULT_ERRNO": str(eno)}, "every fsync of fd 1", eno))
+            for k in range(1, n1 + 1):
+                jobs.append((t, {"VFAULT_OP": "fsync", "VFAULT_FD": "1", "VFAULT_K": str(k), "VFAULT_ERRNO": str(eno)}, "fsync #%d of fd 1" % k, eno))
+
+    def work(j):
+        return j, run_one(j[0], j[1])
+
+    with ThreadPoolExecutor(WORKERS) as ex:
+        results = list(ex.map(work, jobs))
+    for (t, fenv, desc, eno), (rc, out, err, ev) in results:
+        delivered = [e for e in ev if e[0] == "fsync" and e[1] == 1 and e[3] == -1 and e[4] == eno]
+        earlier = [e for e in ev if e[0] == "fsync" and e[1] != 1]
+        c.count(("file-stdout", t.label, desc, eno), bucket="file-stdout/%s/%s" % (t.kind, "sticky" if "STICKY" in "".join(fenv) else "k-th"))
+        rep = {"tool": t.label, "argv": t.argv("$BIN", "$W", "$HX"), "stdin_hex": hexs(t.stdin), "files_hex": {k: hexs(v) for k, v in t.files.items()},
+               "status": rc, "stdout": "regular file", "fault": "%s fails with errno %d" % (desc, eno),
+               "fsyncs_on_other_descriptors_before": [(e[1], e[3], e[4]) for e in earlier][:6], "fsync_calls_on_fd1_seen": len([e for e in ev if e[0] == "fsync" and e[1] == 1]),
+               "how": "cd $W && %s LD_PRELOAD=$HX/libvfault.so %s < stdin > out.file; echo $?" % (" ".join("%s=%s" % kv for kv in sorted(fenv.items())), " ".join(t.argv("$BIN", "$W", "$HX")))}
+        if rc == "timeout":
+            c.violation("hang-under-fault: %s with stdout a regular file and %s failing" % (t.label, desc), rep)
+        elif rc == 0 and "VFAULT_STICKY" in fenv:
+            c.violation("io-error-exit-0: %s wrote %d bytes to a regular file on stdout and exits 0 although every fsync of that file fails with errno %d (%s)" % (
+                t.label, len(clean[t.label][0]), eno, "the failing fsync was issued and ignored" if delivered else "the file was never synced: %d earlier fsync(s) on other descriptors" % len(earlier)), rep)
+        elif rc == 0 and delivered:
+            c.violation("io-error-exit-0: %s exits 0 although %s (regular file) failed with errno %d" % (t.label, desc, eno), rep)
 
 
 # ---------------------------------------------------------------------------
@@ -214,6 +285,92 @@ def phase_kernel(c, bindir, hx, base, kernel_cases):
 
 
 # ---------------------------------------------------------------------------
+# Phase B2: the k-th read / write system call of the iostream tools fails (strace fault injection:
+# reaches glibc's stdio, which an LD_PRELOAD interposer cannot)
+
+STRACE_RE = re.compile(r"^\d+\s+(read|write)\((\d+),.*\)\s+=\s+(-?\d+)(?:\s+(E[A-Z]+))?")
+ERRNO_NAMES = {5: "EIO", 28: "ENOSPC", 32: "EPIPE"}
+
+
+def strace_run(t, bindir, hx, inject=None, timeout=30):
+    with tr.Scratch(SCRATCH, t) as w:
+        logp = os.path.join(w, "strace.log")
+        cmd = ["strace", "-f", "-e", "trace=read,write", "-o", logp]
+        if inject:
+            cmd += ["-e", "inject=%s:error=%s:when=%d" % inject]
+        rc, out, err = tr.run(cmd + t.argv(bindir, w, hx), t.stdin, timeout=timeout, cwd=w)
+        calls = []
+        try:
+            for l in open(logp, errors="replace"):
+                m = STRACE_RE.match(l)
+                if m:
+                    calls.append((m.group(1), int(m.group(2)), int(m.group(3)), m.group(4) or ""))
+        except FileNotFoundError:
+            pass
+        return rc, out, calls
+
+
+def phase_strace(c, bindir, hx, strace_cases):
+    if not shutil.which("strace"):
+        c.assumptions.append("strace not installed: the iostream tools are only exercised with whole-descriptor failures (/dev/full, RLIMIT_FSIZE, closed pipe)")
+        return
+    tools = [t for t in tr.catalogue() if t.kind == "iostream"]
+    # outputs of several stdio buffers: a failure in an EARLY write(2) followed by successful ones must still be reported
+    big_pu = b"".join(b"Hello World number %d\n" % i for i in range(900 if c.tier == "thorough" else 150))
+    big_gw = b"<TEXT>\n" + b"".join(b"<P>\nparagraph %d of the story\nsecond line\n</P>\n" % i for i in range(400 if c.tier == "thorough" else 60)) + b"</TEXT>\n"
+    tools += [tr.Tool("process_unicode", ["--lower"], big_pu, kind="iostream", label="process_unicode-big"),
+              tr.Tool("gigaword_unwrap", [], big_gw, kind="iostream", label="gigaword_unwrap-big")]
+    jobs = []
+    clean = {}
+    strace_failures = []
+    for t in tools:
+        rc, out, calls = strace_run(t, bindir, hx)
+        if rc != 0 or not calls:
+            strace_failures.append("%s rc=%s calls=%d" % (t.label, rc, len(calls)))
+            continue
+        clean[t.label] = (out, calls)
+        for op in ("read", "write"):
+            idx = 0
+            for name, fd, ret, e in calls:
+                if name != op:
+                    continue
+                idx += 1
+                if (op == "read" and fd == 0) or (op == "write" and fd == 1):
+                    for eno in ((5, 28, 32) if op == "write" else (5,)):
+                        jobs.append((t, (op, ERRNO_NAMES[eno], idx), eno))
+
+    if strace_failures and not clean:
+        # ptrace is not available in this environment: say so instead of failing the check
+        c.assumptions.append("strace could not trace any tool here (%s): the k-th-system-call injection for the iostream tools was skipped; "
+                             "they are still exercised with /dev/full, RLIMIT_FSIZE at every byte, closed pipes and a directory on stdin" % strace_failures[0])
+        return
+    for f in strace_failures:
+        c.broken.append("strace: clean run failed: " + f)
+
+    def work(j):
+        t, inject, eno = j
+        return j, strace_run(t, bindir, hx, inject)
+
+    with ThreadPoolExecutor(WORKERS) as ex:
+        results = list(ex.map(work, jobs))
+    for (t, inject, eno), (rc, out, calls) in results:
+        op, ename, idx = inject
+        injected = [x for x in calls if x[0] == op and x[2] == -1 and x[3] == ename]
+        c.count(("strace", t.label, inject), nontrivial=bool(injected), bucket="strace/%s/%s" % (op, "hit" if injected else "not-reached"))
+        rep = {"tool": t.label, "argv": t.argv("$BIN", "$W", "$HX"), "stdin_hex": hexs(t.stdin), "status": rc,
+               "fault": "the %d-th %s system call of the process fails with %s" % (idx, op, ename),
+               "how": "strace -f -e trace=read,write -e inject=%s:error=%s:when=%d %s < stdin; echo $?" % (op, ename, idx, " ".join(t.argv("$BIN", "$W", "$HX")))}
+        if rc == "timeout":
+            c.violation("hang-under-fault: %s with %s" % (t.label, rep["fault"]), rep)
+            continue
+        if injected and rc == 0:
+            c.violation("io-error-exit-0: %s exits 0 although %s" % (t.label, rep["fault"]), rep)
+        if rc == 0 and out != clean[t.label][0]:
+            c.violation("exit-0-output-incomplete: %s exits 0 under '%s' with different output" % (t.label, rep["fault"]), rep)
+        strace_cases.append((t, inject, rc, calls, clean[t.label][1]))
+
+
+# ---------------------------------------------------------------------------
 # Phase C: the three wrappers (+ warc_parallel) with scripted dying children
 
 WRAPPERS = [
@@ -292,6 +449,45 @@ def phase_children(c, bindir, hx, child_cases):
                 c.violation("wrapper-output-wrong: child answered everything, %s output differs from the clean run" % name, rep)
         if k != -1 and k < L and rc == 0:
             c.violation("premature-eof-exit-0: %s exits 0 although its child stopped after %d of %d answers (%s, %s)" % (name, k, L, term, mode), rep)
+    # the child dies while the feeder is still blocked writing megabytes into its stdin (EPIPE / SIGPIPE path)
+    big = {"cache": b"".join(b"line number %d\n" % i for i in range(150000)),
+           "foldfilter": b"".join(b"some words, to be folded: %d and more text here\n" % i for i in range(60000)),
+           "b64filter": b"".join(b"bGluZQo=\n" for i in range(200000))}
+    bjobs = []
+    for name, args in (("cache", []), ("foldfilter", ["-w", "20"]), ("b64filter", [])):
+        for k, term in ((0, "exit:0"), (0, "exit:3"), (0, "sig:9"), (7, "exit:0"), (7, "sig:15"), (2000, "sig:9"), (2000, "exit:1"), (2000, "sig:13")):
+            bjobs.append((name, args, k, term))
+
+    def bwork(j):
+        name, args, k, term = j
+        rc, out, err = tr.run([os.path.join(bindir, name)] + args + [vchild, str(k), term, "nodrain"], big[name], timeout=30)
+        return j, rc
+
+    with ThreadPoolExecutor(WORKERS) as ex:
+        bresults = list(ex.map(bwork, bjobs))
+    for (name, args, k, term), rc in bresults:
+        c.count(("big", name, k, term), bucket="child/%s/%s/feeder-blocked" % (name, term.split(":")[0]))
+        rep = {"wrapper": name, "argv": [name] + args + ["$HX/vchild", str(k), term, "nodrain"], "stdin_desc": "%d bytes of lines (see phase_children in checks/C11.py)" % len(big[name]),
+               "child": {"answers_lines": k, "terminates": term, "mode": "nodrain"}, "status": rc}
+        if rc == "timeout":
+            c.violation("wrapper-hang: %s does not terminate when its child (%s after %d answers) dies while the feeder is still writing" % (name, term, k), rep)
+        elif rc == 0:
+            c.violation("premature-eof-exit-0: %s exits 0 although its child ended (%s) after %d answers of a %d-byte input" % (name, term, k, len(big[name])), rep)
+    # the child cannot even be started (execvp fails: ENOENT, EACCES, a directory): never success, never a hang
+    with tr.Scratch(SCRATCH) as w:
+        noexec = os.path.join(w, "not-executable")
+        open(noexec, "w").write("#!/bin/sh\ncat\n")
+        os.chmod(noexec, 0o644)
+        for name, args, stdin in [(n, a, i) for (n, a, i) in WRAPPERS if not a or n != "cache"] + [("warc_parallel", ["-j", "2"], wp_in)]:
+            for prog in ("/nonexistent/program", noexec, w, ""):
+                rc, out, err = tr.run([os.path.join(bindir, name)] + args + [prog], stdin, timeout=20)
+                c.count(("exec-fails", name, prog), bucket="child/%s/exec-fails" % name)
+                rep = {"wrapper": name, "argv": [name] + args + [prog if prog in ("", "/nonexistent/program") else os.path.basename(prog)], "stdin_hex": hexs(stdin), "status": rc,
+                       "child": "cannot be executed"}
+                if rc == "timeout":
+                    c.violation("wrapper-hang: %s does not terminate when its child cannot be executed (%r)" % (name, prog), rep)
+                elif rc == 0:
+                    c.violation("child-failure-exit-0: %s exits 0 although its child %r could not be executed" % (name, prog), rep)
     # warc_parallel (not one of the three, same Launch/wait machinery): failures must not be success
     for term in ["exit:0", "exit:3", "sig:9", "sig:15"]:
         rc, out, err = tr.run([os.path.join(bindir, "warc_parallel"), "-j", "2", vchild, "-1", term, "drain"], wp_in, timeout=20)
@@ -315,13 +511,21 @@ class _Stop(Exception):
     pass
 
 
-def gen_tool_case(rng, big):
+# read-size plans that sit on the case splits of BufferedStream::write (fits / spill then fits / spill then direct write)
+BOUNDARY_PLANS = [[8192], [8193], [8191, 1], [8191, 2], [4096, 4096], [4096, 4096, 1], [1, 8192], [1, 8191], [9000], [10000], [8192, 8192], [8192, 1, 8192],
+                  [5000, 5000], [8190, 1, 1, 1], [10000, 10000, 10000], [8192, 9000], [1] * 6, [8191, 9999]]
+
+
+def gen_tool_case(rng, big, plan=None):
     """Generate an oracle for the mini filter tool of hx_exit by lazily simulating the
     order of its system calls (generation only: results are never taken from here)."""
     chunk = rng.choice([4096, 10000]) if big else rng.choice([1, 3, 64, 4096])
     fin = rng.choice([b"", b"END", b"\n"]) if not big else rng.choice([b"", b"END", bytes(rng.randrange(256) for _ in range(8200))])
     nreads = rng.randrange(0, 5)
     sizes = [rng.randrange(1, chunk + 1) if big else rng.randrange(1, min(chunk, 40) + 1) for _ in range(nreads)]
+    if plan is not None:
+        chunk, sizes, nreads = 10000, list(plan), len(plan)
+        fin = rng.choice([b"", b"E", bytes(8192), bytes(8193)])
     est = 2 * nreads + 8
     fail_at = rng.choice([None, None] + list(range(est)))
     fail_errno = rng.choice([5, 28, 32])
@@ -500,7 +704,10 @@ def rc_to_status(rc):
 SINGLE_THREADED = lambda t: t.kind == "util" and t.name != "shard"
 
 
-def phase_model(c, drv, hx, model_cases, kernel_cases, child_cases):
+ERRNO_BY_NAME = {"EIO": 5, "ENOSPC": 28, "EPIPE": 32, "EINTR": 4, "EFBIG": 27, "EISDIR": 21}
+
+
+def phase_model(c, drv, hx, model_cases, kernel_cases, child_cases, strace_cases=(), shard_cases=()):
     impl = os.path.join(hx, "hx_exit")
     # D1: library level -- mini tool on the real util::PartialRead / util::FileStream vs tool_run
     n_small, n_big = (500, 60) if c.tier == "quick" else (6000, 600)
@@ -509,6 +716,32 @@ def phase_model(c, drv, hx, model_cases, kernel_cases, child_cases):
         l, fin = gen_tool_case(c.rng, big=i >= n_small)
         lines.append(l)
         fins.append(fin)
+    for plan in BOUNDARY_PLANS:
+        for rep in range(2 if c.tier == "quick" else 12):
+            l, fin = gen_tool_case(c.rng, True, plan=plan)
+            lines.append(l)
+            fins.append(fin)
+    # the read loops of util/file.cc: ReadOrEOF / ReadOrThrow with short reads, EINTR, early EOF and errors at every step
+    for i in range(150 if c.tier == "quick" else 2000):
+        rng = c.rng
+        amount = rng.choice([0, 1, 2, 6, 6, 17, 100])
+        remaining, outs = amount, []
+        for step in range(rng.randrange(0, 6)):
+            r = rng.random()
+            if r < 0.15:
+                outs.append("e:4")
+            elif r < 0.25:
+                outs.append("e:%d" % rng.choice([5, 28, 32]))
+                break
+            elif r < 0.4 or remaining <= 0:
+                outs.append("o:0:")
+                break
+            else:
+                n = rng.randrange(1, remaining + 1)
+                outs.append("o:%d:%s" % (n, bytes(rng.randrange(256) for _ in range(n)).hex()))
+                remaining -= n
+        lines.append("%s %d | %s" % (rng.choice(["ROE", "ROT"]), amount, " ".join(outs)))
+        fins.append(b"")
     for code in range(256):
         lines.append("WAIT exit:%d" % code)
         fins.append(b"")
@@ -522,6 +755,16 @@ def phase_model(c, drv, hx, model_cases, kernel_cases, child_cases):
             if l.startswith("T "):
                 failed = harness_oracle(c, l, fin, o)
                 c.count(l, bucket="library/%s/%s" % ("big" if int(l.split()[1]) >= 4096 and len(l) > 9000 else "small", "failed-call" if failed else "clean"))
+            elif l.startswith("RO"):
+                c.count(l, bucket="library/read-loops")
+                st, ev = parse_trace(o.split(" R:")[0])
+                bad = [e for e in ev if e[3] < 0 and e[4] != 4]
+                toks = l.split("|", 1)[1].split()
+                delivered = b"".join(bytes.fromhex(tk.split(":")[2]) for tk, e in zip(toks, ev) if tk.startswith("o:") and e[3] > 0)
+                if bad and st == "exit:0":
+                    c.violation("io-error-exit-0(library): %s returns normally although read failed with errno %d" % (l.split()[0], bad[0][4]), {"harness": "hx_exit", "case": l[:600], "impl": o[:400]})
+                if st == "exit:0" and " R:" in o and bytes.fromhex(o.split(" R:")[1]) != delivered:
+                    c.violation("read-loop-wrong-data(library): %s returned bytes that are not the concatenation of what the reads delivered" % l.split()[0], {"harness": "hx_exit", "case": l[:600], "impl": o[:400]})
             elif l.startswith("WAIT"):
                 c.count(l, bucket="library/Wait")
                 kind, v = l.split()[1].split(":")
@@ -568,6 +811,73 @@ def phase_model(c, drv, hx, model_cases, kernel_cases, child_cases):
         mlines.append("W %s %d %d %s 1" % (name, L, lines_answered, term))
         expect.append((rc_to_status(rc), "class"))
         meta.append((name, (k, term, mode), False))
+    # D6: shard (threads): per output descriptor the order of calls is deterministic; replay each descriptor's
+    #     sub-trace through threaded_file_run (lines routed to it = content of the file in the fault-free run)
+    for t, fault, rc, ev, base_ev, base_outs in shard_cases:
+        if rc == "timeout":
+            continue
+        for fd, oname in zip((3, 4), t.outputs):
+            content = base_outs.get(oname) or b""
+            lens = [len(x) for x in content.split(b"\n")[:-1]]
+            sub = [e for e in ev if e[1] == fd]
+            mlines.append("F %d %s | %s" % (fd, ",".join(str(x) for x in lens) or "-", " ".join(outcome_tokens(sub))))
+            hit_here = any(e[3] < 0 for e in sub)
+            expect.append((rc_to_status(rc) if hit_here or rc == 0 else None, fmt_events(sub)))
+            meta.append((t, ("shard-fd", fd) + tuple(fault), "prefix"))
+    # D7: the three wrappers under faults on their own data descriptors (child's stdin, stdout): each thread's
+    #     sub-trace replayed through wrapper_io_run
+    for t, fault, rc, ev, base_ev in model_cases:
+        if t.kind != "wrapper" or t.name == "warc_parallel" or rc == "timeout" or fault[0] == "read":
+            continue
+        child_fds = [e[1] for e in base_ev if e[0] == "write" and e[1] != 1]
+        if not child_fds:
+            continue
+        cfd = child_fds[0]
+        bad_ev = [e for e in ev if e[3] < 0 and not (e[4] == 4 and e[0] == "write") and not (e[0] == "fsync" and e[4] in BENIGN_FSYNC)]
+        if any(e[1] not in (cfd, 1) for e in bad_ev):
+            continue          # the fault hit a descriptor of Launch / the child's stdout reader: outside this model
+        sent = sum(e[2] for e in base_ev if e[0] == "write" and e[1] == cfd)
+        recs = sum(e[2] for e in base_ev if e[0] == "write" and e[1] == 1)
+        fsub = [e for e in ev if e[1] == cfd and e[0] != "read"]
+        csub = [e for e in ev if e[1] == 1 and e[0] != "read"]
+        mlines.append("WR %s %d %d %d 1 1 exit:0 | %s | %s" % (t.name, cfd, sent, recs, " ".join(outcome_tokens(fsub)), " ".join(outcome_tokens(csub))))
+        expect.append((rc_to_status(rc), (fmt_events(fsub), fmt_events(csub), [e[1] for e in bad_ev])))
+        meta.append((t, ("wrapper-io",) + tuple(fault), "wrapper-io"))
+    # D8: Launch's status pipe: runs in which the injected fault hit the read of the close-on-exec pipe
+    for t, fault, rc, ev, base_ev in model_cases:
+        if t.kind != "wrapper" or t.name == "warc_parallel" or rc == "timeout" or fault[0] != "read":
+            continue
+        st_reads = [e for e in base_ev if e[0] == "read" and e[2] == 4]
+        if not st_reads:
+            continue
+        sfd = st_reads[0][1]
+        sub = [e for e in ev if e[0] == "read" and e[1] == sfd]
+        if not any(e[3] < 0 for e in sub):
+            continue
+        mlines.append("L 1 %d | %s" % (sfd, " ".join(outcome_tokens(sub))))
+        expect.append((rc_to_status(rc), fmt_events(sub)))
+        meta.append((t, ("launch",) + tuple(fault), False))
+    # D5: iostream tools under strace injection: the segmentation of stdout into write(2) calls is the one observed in the
+    #     fault-free run; the outcomes are the ones strace reports for the faulted run
+    for t, inject, rc, calls, clean_calls in strace_cases:
+        if rc == "timeout":
+            continue
+        uses_cin = t.name in ("process_unicode", "mmhsum")
+        segs = [c_[2] for c_ in clean_calls if c_[0] == "write" and c_[1] == 1 and c_[2] > 0]
+        outs = []
+        evs = []
+        if uses_cin:
+            for name, fd, ret, e in calls:
+                if name == "read" and fd == 0:
+                    outs.append("o:%d" % ret if ret >= 0 else "e:%d" % ERRNO_BY_NAME.get(e, 5))
+        elif inject[0] == "read":
+            continue      # gigaword_unwrap / order_independent_hash read through util::FilePiece (covered by script_run)
+        for name, fd, ret, e in calls:
+            if name == "write" and fd == 1:
+                outs.append("o:%d" % ret if ret >= 0 else "e:%d" % ERRNO_BY_NAME.get(e, 5))
+        mlines.append("I %s - %s | %s" % (t.name, ",".join(str(x) for x in segs) or "-", " ".join(outs)))
+        expect.append((rc_to_status(rc), None))
+        meta.append((t, ("strace",) + inject, False))
     rc, out, err = run_lines(drv, mlines)
     if len(out) != len(mlines):
         c.broken.append("model driver produced %d lines for %d cases: %s" % (len(out), len(mlines), err[-300:]))
@@ -575,6 +885,21 @@ def phase_model(c, drv, hx, model_cases, kernel_cases, child_cases):
     bad = []
     for l, o, (est, eev), m in zip(mlines, out, expect, meta):
         st, _, tr = o.partition(" ")
+        if m[2] == "wrapper-io":
+            mf, _, mc = tr.partition(" | ")
+            rf, rcol, badfds = eev
+            # the thread whose call failed must match exactly; the other one may have been cut short by the abort
+            okf = (mf == rf) if (m[0] and badfds and badfds[0] != 1) or st == "exit:0" else mf.startswith(rf)
+            okc = (mc == rcol) if (badfds and badfds[0] == 1) or st == "exit:0" else mc.startswith(rcol)
+            if not (st == est and okf and okc):
+                bad.append((l, o, est, "%s | %s" % (rf, rcol), m))
+            continue
+        if m[2] == "prefix":
+            # another thread / descriptor may have ended the process first: the real sub-trace is then a prefix of the model's
+            ok = (est is None or st == est) and (tr == eev if est is not None else tr.startswith(eev))
+            if not ok:
+                bad.append((l, o, est, eev, m))
+            continue
         if eev == "class":
             ok = (st == est) if est.startswith("exit") else st.startswith("sig")
         elif eev is None:
@@ -607,14 +932,19 @@ def main(argv):
     drv, dlog = build_driver("C11")
     bindir = os.path.dirname(repo_bin("x"))
     hx = os.path.dirname(hx_bin("x"))
-    model_cases, kernel_cases, child_cases = [], [], []
-    base = phase_faults(c, bindir, hx, model_cases)
+    model_cases, kernel_cases, child_cases, strace_cases = [], [], [], []
+    shard_cases = []
+    base = phase_faults(c, bindir, hx, model_cases, shard_cases)
+    phase_file_stdout(c, bindir, hx)
     phase_kernel(c, bindir, hx, base, kernel_cases)
+    phase_strace(c, bindir, hx, strace_cases)
     phase_children(c, bindir, hx, child_cases)
     if drv is None:
         c.broken.append("extraction/driver build failed: " + dlog[-600:])
     else:
-        phase_model(c, drv, hx, model_cases, kernel_cases, child_cases)
+        phase_model(c, drv, hx, model_cases, kernel_cases, child_cases, strace_cases, shard_cases)
+    if c.tier == "thorough":
+        coqchk(c)
     shutil.rmtree(SCRATCH, ignore_errors=True)
     if os.environ.get("VERIF_DEBUG"):
         for what, obj, found in c.violations:
@@ -622,8 +952,8 @@ def main(argv):
     return c.finish(
         level="proof",
         rule="(A) every catalogue invocation of all 24 executables under libvfault: for each of read/write/fsync/close, EVERY k up to the number of such calls in the fault-free run (+1 unreachable control) fails with EIO/ENOSPC/EPIPE (quick: one errno per k, rotating; thorough: all three), plus EINTR / fsync-EINVAL controls; "
-             "(B) real kernel failures: stdout=/dev/full, stdout=pipe without reader, RLIMIT_FSIZE=n for every n up to the output size (iostream tools; boundary values for the others), stdin=directory; "
-             "(C) cache/foldfilter/b64filter (+warc_parallel) with scripted children: every exit code 0..255 and every fatal signal after answering everything, and for every k in 0..L answers: exit 0/1/255, SIGKILL/SIGTERM/SIGSEGV, draining stdin or not; "
+             "(A2) stdout a regular file: every fsync of fd 1 in turn and all of them fail with EIO/ENOSPC (per-descriptor enumeration, independent of earlier fsyncs on pipes); (B) real kernel failures: stdout=/dev/full, stdout=pipe without reader, RLIMIT_FSIZE=n for every n up to the output size (iostream tools; boundary values for the others), stdin=directory; "
+             "(B2) strace fault injection (reaches glibc stdio): EVERY read(0) and EVERY write(1) system call of the four iostream tools fails with EIO / ENOSPC / EPIPE; (C) cache/foldfilter/b64filter (+warc_parallel) with scripted children: every exit code 0..255 and every fatal signal after answering everything, and for every k in 0..L answers: exit 0/1/255, SIGKILL/SIGTERM/SIGSEGV, draining stdin or not; "
              "(D) extracted Coq model vs real code: random oracles for the util::FileStream mini tool (short writes, EINTR, zero writes, ignored fsync errnos, failures at every call index, outputs crossing the 8 KiB buffer), Wait for all exit codes and fatal signals, and replay of every (A)/(B)/(C) run through script_run / iostream_run / wrapper_status. "
              "distinct = distinct (tool, fault) / (wrapper, child behaviour) / oracle cases in which the fault was delivered",
         assumptions=["an exception leaving main or a thread, or thrown by a destructor, ends the process through std::terminate -> abort (SIGABRT); checked on every faulted run",
